@@ -160,6 +160,115 @@ def h14a_pre(time_signed, fudge, original_id, error, other, rmac, use_rmac):
             and len(other) <= 2 and len(rmac) <= 3 and (use_rmac or len(rmac) == 0) and (not use_rmac or len(rmac) >= 1))
 
 
+# ---------------------------------------------------------------- H14b multi-message sequences (RFC 8945 5.3.1)
+
+def envelope(i, payload):
+    """i-th message of a three-message answer: one TXT record whose single string octet is `payload`."""
+    with concrete():
+        q = dns.message.make_query("example.", "AXFR", id=0x1234)
+        r = dns.message.make_response(q)
+        w = r.to_wire()
+    # append one answer RR by hand (owner = pointer to the question name): example. 300 IN TXT <1 octet>
+    rr = b"\xc0\x0c" + u16(16) + u16(1) + u32(300) + u16(2) + b"\x01" + bytes([payload])
+    return w[:6] + u16(1) + w[8:] + rr
+
+
+def ideal_tag(secret, stream, alg):
+    rec = Rec(secret)
+    rec.update(stream)
+    tag = rec.digest()
+    del STREAMS[-1]  # (the reference's own use of the oracle is not a library call)
+    trunc = HASHES[alg][1]
+    return tag[:trunc] if trunc else tag
+
+
+def attach_tsig(w, key, alg, t, fudge, mac):
+    rd = canon_name(alg) + u48(t) + u16(fudge) + u16(len(mac)) + mac + w[0:2] + u16(0) + u16(0)
+    owner = key.name.to_wire()
+    return w[:10] + u16(w[10] * 256 + w[11] + 1) + w[12:] + owner + u16(250) + u16(255) + u32(0) + u16(len(rd)) + rd
+
+
+def later_stream(prior_mac, unsigned, w, t, fudge):
+    """RFC 8945 5.3.1: prior MAC (with its length), any unsigned messages since, the message, the TSIG timers."""
+    s = u16(len(prior_mac)) + prior_mac
+    for u in unsigned:
+        s += u
+    return s + w[0:2] + w[2:] + u48(t) + u16(fudge)
+
+
+def h14b(t0: int, t1: int, t2: int, fudge: int, signed1: bool, alter: int, v: int, rmac: bytes) -> bool:
+    """Three-message sequence: (A) the library as signer digests exactly the RFC 8945 5.3 / 5.3.1 streams; (B) the library as
+    verifier accepts the reference-signed sequence with the middle message signed or unsigned, and rejects it at the next
+    signed message when any one message (signed or not) was altered."""
+    alg = ALGS[S("alg")]
+    with concrete():
+        key = dns.tsig.Key(KEYNAME, SECRET, alg)
+    use_ideal()
+    ts = [t0, t1, t2]
+    ws = [envelope(i, 0x41 + i) for i in range(3)]
+    # ---- A: the library signs every message of the sequence
+    ctx = None
+    macs = []
+    for i in range(3):
+        rd = dns.rdtypes.ANY.TSIG.TSIG(dns.rdataclass.ANY, dns.rdatatype.TSIG, alg, ts[i], fudge, b"", 0x1234, 0, b"")
+        tsig, ctx = dns.tsig.sign(ws[i], key, rd, ts[i], rmac, ctx, True)
+        if i == 0:
+            want = ref_stream(ws[0], 0x1234, key, alg, ts[0], fudge, 0, b"", rmac)
+        else:
+            want = later_stream(macs[i - 1], [], ws[i], ts[i], fudge)
+        if len(STREAMS) != i + 1 or STREAMS[i] != want:
+            return False
+        macs.append(tsig.mac)
+    hit("signed")
+    # ---- B: reference-signed sequence, middle message signed or not, one message possibly altered
+    use_ideal()
+    sent = []
+    mac0 = ideal_tag(SECRET, ref_stream(ws[0], 0x1234, key, alg, ts[0], fudge, 0, b"", rmac), alg)
+    sent.append(attach_tsig(ws[0], key, alg, ts[0], fudge, mac0))
+    if signed1:
+        mac1 = ideal_tag(SECRET, later_stream(mac0, [], ws[1], ts[1], fudge), alg)
+        sent.append(attach_tsig(ws[1], key, alg, ts[1], fudge, mac1))
+        mac2 = ideal_tag(SECRET, later_stream(mac1, [], ws[2], ts[2], fudge), alg)
+    else:
+        sent.append(ws[1])
+        mac2 = ideal_tag(SECRET, later_stream(mac0, [ws[1]], ws[2], ts[2], fudge), alg)
+    sent.append(attach_tsig(ws[2], key, alg, ts[2], fudge, mac2))
+    body_len = len(ws[0])
+    if alter > 0:
+        j = alter - 1
+        sent[j] = sent[j][:body_len - 1] + bytes([v]) + sent[j][body_len:]  # the TXT octet of message j
+    # first signed message at or after the altered one must fail; everything before is accepted
+    fail_at = None
+    if alter > 0:
+        j = alter - 1
+        fail_at = j if (j != 1 or signed1) else 2
+    ctx = None
+    for i in range(3):
+        Clock.now = ts[i]
+        try:
+            m = dns.message.from_wire(sent[i], keyring=key, request_mac=rmac, tsig_ctx=ctx, multi=True)
+        except dns.tsig.BadSignature:
+            Clock.now = 1_700_000_000
+            return fail_at == i
+        if fail_at == i:
+            Clock.now = 1_700_000_000
+            return False
+        if m.had_tsig != (i != 1 or signed1):
+            return False
+        ctx = m.tsig_ctx
+    Clock.now = 1_700_000_000
+    hit("verified")
+    return fail_at is None
+
+
+def h14b_pre(t0, t1, t2, fudge, signed1, alter, v, rmac):
+    if not (0 <= t0 < 2**48 and 0 <= t1 < 2**48 and 0 <= t2 < 2**48 and 0 <= fudge <= 65535 and 0 <= alter <= 3 and 0 <= v <= 255 and len(rmac) <= 2):
+        return False
+    if alter == 0:
+        return v == 0
+    return v != 0x41 + alter - 1
+
+
 # ---------------------------------------------------------------- H14c real primitive on concrete vectors
 
 def tsig_rr(wire):
@@ -414,6 +523,12 @@ HARNESSES = [
                      "dns.tsig.HMACTSig.verify", "dns.rdtypes.ANY.TSIG.TSIG._to_wire"],
             bound="time signed (48 bit), fudge, original id (16 bit each), error (0..4095, the range the TSIG record accepts), other data <= 2 octets, request MAC absent or 1-3 octets: all symbolic; mixed-case key name; 3 (9) algorithms; stream compared octet for octet with the RFC 8945 4.3 reference",
             stubs=["E9", "E1"], outside="cryptographic strength of HMAC (idealised); GSS-TSIG"),
+    Harness("H14b", h14b, h14b_pre, lambda tier: [{"alg": a, "_timeout": 900, "_path_timeout": 120} for a in ((0, 6) if tier == "quick" else range(len(ALGS)))],
+            kind="universal over times / fudge / request MAC / replacement octet; finite over which message is unsigned or altered",
+            encodes=["dns.tsig._digest", "dns.tsig._maybe_start_digest", "dns.tsig.sign", "dns.tsig.validate", "dns.message._WireReader.read",
+                     "dns.message._WireReader._get_section", "dns.message.from_wire"],
+            bound="3-message sequence; (A) sign() with multi: stream of message 1 = RFC 8945 5.3 stream, of messages 2, 3 = prior MAC with length + message + timers; (B) from_wire(multi=True, tsig_ctx) on a reference-signed sequence with the middle message signed or unsigned; one octet of any one message replaced by any other value -> BadSignature at the next signed message; times 48 bit, fudge 16 bit, request MAC 0-2 octets symbolic; HMAC-SHA256 and a truncated variant (thorough: all 9)",
+            stubs=["E9", "E1", "E7"], outside="longer sequences; two unsigned messages in a row; cryptographic strength of HMAC (idealised)"),
     Harness("H14c", h14c, h14c_pre, lambda tier: [{"_timeout": 600}], kind="finite selection (concrete vectors, real HMAC)",
             encodes=["dns.message.Message.use_tsig", "dns.message.Message.to_wire", "dns.tsig.sign", "dns.tsig.validate", "dns.renderer.Renderer.add_rrset",
                      "dns.message.make_response"],
